@@ -1,5 +1,6 @@
 import Brax.Lemmas.KinEquiv
 import Brax.Lemmas.ScanSpec
+import Brax.Lemmas.C05Spring
 /-!
 # C05 — physics does not depend on how the scene is represented
 
@@ -17,8 +18,13 @@ The last two are statements about the tree recursion `Kin.scanFwd` that *every* 
 `scan.tree` computation of brax instantiates (kinematics `world`, `cd` of the generalized
 pipeline, …), tied to the real `scan.tree` by the exact Layer-B correspondence.
 
+* `spring_step_equivariant`, `spring_steps_equivariant`, `spring_init_equivariant`,
+  `spring_trajectory_equivariant` (bottom of the file; stage lemmas in `Lemmas/C05Spring.lean`) —
+  `spring.pipeline.init` and any number of contact-free `spring.pipeline.step`s commute with a rigid
+  transform `g` of the whole scene (state and gravity), field by field.
+
 Not proved (tied by the correspondence / observed by the search only): equivariance of a full
-`pipeline.step` of the three pipelines (`…Stmt` below).
+`pipeline.step` of the positional and generalized pipelines (`…Stmt` below).
 -/
 set_option linter.unusedSectionVars false
 namespace Brax.C05
@@ -134,13 +140,257 @@ example : ParentsWF [-1, 0, 0] ∧ ParentsWF (permParents 3 (fun k => [0, 2, 1].
     | 1, _ => simp [permParents]
     | 2, _ => simp [permParents]
 
-/-! Full statement not proved (kept visible): one `pipeline.step` of each native pipeline commutes
-with `g` on contact-free scenes.  `forward_equivariant` is the kinematics part of it; the
-dynamics part (joint forces invariant in the joint frame, integrators commuting with `g`) is
-tied by the correspondence and observed by the search only.
+/-! Full statement (kept visible): one `pipeline.step` of each native pipeline commutes with `g`
+on contact-free scenes.  `forward_equivariant` is the kinematics part of it.  For the **spring**
+pipeline it is proved below (`spring_step_equivariant` … `spring_trajectory_equivariant`).  For the
+positional and generalized pipelines the dynamics part is still tied by the correspondence and
+observed by the search only.
 
 def step_equivariant_Stmt : Prop :=
   ∀ pipeline sys state ctrl g, step (g • sys) (g • state) ctrl = g • step sys state ctrl
 -/
+
+/-! ## The spring pipeline: `init` and `step` commute with a rigid transform of the scene
+
+`g • sys = gSys g sys` (gravity rotated), `g • state = gState g sys state q' qd'` (`Lemmas/C05Spring.lean`):
+`x, x_i, a_c ↦ g ∘ ·`; `xd, xd_i ↦ R_g ·` (both parts); `i_inv ↦ R_g · R_gᵀ`; `mass` unchanged;
+`j`, `jd`, `a_p` of **non-root** links: `j`, `jd` unchanged, `a_p ↦ g ∘ a_p`; of **root** links:
+`a_p` unchanged (it is `link.transform ∘ link.joint` in the fixed world frame — `world_to_joint`
+recomputes it from the system alone), `j`, `jd` recomputed from the transformed child anchor and world
+velocity by the root formulas of `world_to_joint` (for `a_p = identity`, as for a free link loaded
+from MJCF, that is `j ↦ g ∘ j`, `jd ↦ R_g jd`: `gJ_root_id`, `gJd_root_id`).
+`q'`, `qd'` are the generalized coordinates of the transformed state; `step` reads them only
+through `actuator.to_tau`, so all that is needed is `ActAgree` (they agree with `q`, `qd` at the
+actuated coordinates — a rigid transform changes only the coordinates of the free roots).
+
+Hypotheses, and why each is needed:
+* `g.rot.IsUnit` — `g` is a rigid transform (`rotate · g.rot` is a rotation only for unit `g.rot`);
+* `FreeRooted s` — a forest whose roots are all free links: a hinge/slide attached to the world is
+  anchored at a fixed world point, so moving the scene is *not* a symmetry for it;
+* `s.links.length = s.numLinks`, `State.WF s st` — the shape guards (`Sys.WF`, `State.WF`) the driver
+  checks on every input (outside an array the model returns `Transform.zero`, which `g` moves);
+* `ActAgree` — see above.
+No hypothesis on unit quaternions in the state, on masses or on the time step is needed; over ℝ the
+normalisation `rot / ‖rot‖` is total (`x / 0 = 0`), where the float code would give NaN on both sides. -/
+section spring
+open C05L C04L MC
+
+/-- **C05, one contact-free spring step commutes with the rigid transform `g`** — equality of
+whole states; `q`, `qd` of the result are `kinematics.inverse` (`inv`) of the transformed `j`, `jd`. -/
+theorem spring_step_equivariant (inv : List (Tf ℝ) → List (Motion ℝ) → List ℝ × List ℝ)
+    (g : Tf ℝ) (hg : g.rot.IsUnit) (s : Sys ℝ) (st : Spring.State ℝ) (act q' qd' : List ℝ)
+    (hfr : FreeRooted s) (hlinks : s.links.length = s.numLinks)
+    (hwf : Spring.State.WF s st = true) (hact : ActAgree s st.q st.qd q' qd') :
+    Spring.step inv (fun _ => []) (gSys g s) (gState g s st q' qd') act
+      = gState g s (Spring.step inv (fun _ => []) s st act)
+          (inv (gJ g s.parents (Spring.step inv (fun _ => []) s st act).a_p
+                  (Spring.step inv (fun _ => []) s st act).a_c
+                  (Spring.step inv (fun _ => []) s st act).j)
+               (gJd g s.parents (Spring.step inv (fun _ => []) s st act).a_p
+                  (Spring.step inv (fun _ => []) s st act).xd
+                  (Spring.step inv (fun _ => []) s st act).jd)).1
+          (inv (gJ g s.parents (Spring.step inv (fun _ => []) s st act).a_p
+                  (Spring.step inv (fun _ => []) s st act).a_c
+                  (Spring.step inv (fun _ => []) s st act).j)
+               (gJd g s.parents (Spring.step inv (fun _ => []) s st act).a_p
+                  (Spring.step inv (fun _ => []) s st act).xd
+                  (Spring.step inv (fun _ => []) s st act).jd)).2 :=
+  C05L.spring_step_equivariant g hg s st act q' qd' hfr (LenOK.of_wf hwf) hact inv hlinks
+
+/-- the same, read field by field (the property's wording): link poses are composed with `g`, link
+velocities rotated, joint coordinates of non-root links unchanged -/
+theorem spring_step_equivariant_fields (inv : List (Tf ℝ) → List (Motion ℝ) → List ℝ × List ℝ)
+    (g : Tf ℝ) (hg : g.rot.IsUnit) (s : Sys ℝ) (st : Spring.State ℝ) (act q' qd' : List ℝ)
+    (hfr : FreeRooted s) (hlinks : s.links.length = s.numLinks)
+    (hwf : Spring.State.WF s st = true) (hact : ActAgree s st.q st.qd q' qd') :
+    let o := Spring.step inv (fun _ => []) s st act
+    let o' := Spring.step inv (fun _ => []) (gSys g s) (gState g s st q' qd') act
+    o'.x = o.x.map (Tf.doTf g) ∧ o'.xd = o.xd.map (rotM g)
+    ∧ o'.x_i = o.x_i.map (Tf.doTf g) ∧ o'.xd_i = o.xd_i.map (rotM g)
+    ∧ o'.a_c = o.a_c.map (Tf.doTf g) ∧ o'.a_p = gAp g s.parents o.a_p
+    ∧ o'.i_inv = o.i_inv.map (conjM g.rot) ∧ o'.mass = o.mass
+    ∧ (∀ i, i < s.numLinks → ¬ parentOf s.parents i < 0 →
+        nth o'.j i = nth o.j i ∧ nth o'.jd i = nth o.jd i)
+    ∧ o'.q = (inv o'.j o'.jd).1 ∧ o'.qd = (inv o'.j o'.jd).2 := by
+  intro o o'
+  have hq : o'.q = (inv o'.j o'.jd).1 := step_q inv _ _ _ _
+  have hqd : o'.qd = (inv o'.j o'.jd).2 := step_qd inv _ _ _ _
+  have hm : o'.mass = o.mass := by
+    rw [step_mass, step_mass, gState_mass]
+  have h : o' = gState g s o _ _ :=
+    spring_step_equivariant inv g hg s st act q' qd' hfr hlinks hwf hact
+  clear_value o o'
+  refine ⟨?_, ?_, ?_, ?_, ?_, ?_, ?_, hm, ?_, hq, hqd⟩
+  · rw [h]; rfl
+  · rw [h]; rfl
+  · rw [h]; rfl
+  · rw [h]; rfl
+  · rw [h]; rfl
+  · rw [h]; rfl
+  · rw [h]; rfl
+  · intro i hi' hr
+    have hi'' : i < s.parents.length := by rw [hfr.hlen]; exact hi'
+    have hj : o'.j = gJ g s.parents o.a_p o.a_c o.j := by rw [h]; rfl
+    have hjd : o'.jd = gJd g s.parents o.a_p o.xd o.jd := by rw [h]; rfl
+    rw [hj, hjd]
+    exact ⟨gJ_nonroot g _ _ _ _ hi'' hr, gJd_nonroot g _ _ _ _ hi'' hr⟩
+
+/-- **C05, any number of contact-free spring steps** (`InvLocal`: `kinematics.inverse` computes the
+actuated coordinates from the rows of non-root links only) -/
+theorem spring_steps_equivariant (inv : List (Tf ℝ) → List (Motion ℝ) → List ℝ × List ℝ)
+    (g : Tf ℝ) (hg : g.rot.IsUnit) (s : Sys ℝ) (hfr : FreeRooted s)
+    (hlinks : s.links.length = s.numLinks) (hinv : InvLocal s inv) (acts : List (List ℝ))
+    (st : Spring.State ℝ) (q' qd' : List ℝ) (hwf : Spring.State.WF s st = true)
+    (hact : ActAgree s st.q st.qd q' qd') :
+    ∃ q'' qd'', steps inv (gSys g s) (gState g s st q' qd') acts
+        = gState g s (steps inv s st acts) q'' qd''
+      ∧ ActAgree s (steps inv s st acts).q (steps inv s st acts).qd q'' qd'' :=
+  C05L.spring_steps_equivariant g hg s inv hfr hlinks hinv acts st q' qd' (LenOK.of_wf hwf) hact
+
+/-- **C05, `spring.pipeline.init` commutes with the rigid transform**: for the root coordinates
+transformed by `xformIn g` (the transform `forward_equivariant` is about), the initial state is the
+transform of the initial state -/
+theorem spring_init_equivariant (g : Tf ℝ) (hg : g.rot.IsUnit) (s : Sys ℝ) (q qd q' qd' : List ℝ)
+    (hfr : FreeRooted s) (hlinks : s.links.length = s.numLinks) (hpw : ParentsWF s.parents)
+    (hok : ∀ x ∈ s.parents.zip (s.links.zip (linkSlices s.types q qd s.dofs)),
+      LinkOK x.1 x.2.1 x.2.2 ∧ (x.1 < 0 → x.2.2.typ = .free))
+    (hq : linkSlices s.types q' qd' s.dofs = (linkSlices s.types q qd s.dofs).map (xformIn g)) :
+    Spring.init (gSys g s) q' qd' = gState g s (Spring.init s q qd) q' qd' := by
+  apply init_equiv_of_forward g hg s q qd q' qd' hfr hlinks
+  rw [forward_eq_forwardIns, forward_eq_forwardIns, hq]
+  exact forward_equivariant s _ g hg hpw hok
+
+/-- **C05, spring pipeline, whole trajectories from `init`**: `init` followed by any number of
+contact-free steps, on the transformed coordinates in the transformed system, is the transform of
+the original trajectory's end state -/
+theorem spring_trajectory_equivariant (inv : List (Tf ℝ) → List (Motion ℝ) → List ℝ × List ℝ)
+    (g : Tf ℝ) (hg : g.rot.IsUnit) (s : Sys ℝ) (q qd q' qd' : List ℝ) (acts : List (List ℝ))
+    (hfr : FreeRooted s) (hlinks : s.links.length = s.numLinks) (hpw : ParentsWF s.parents)
+    (hinv : InvLocal s inv)
+    (hok : ∀ x ∈ s.parents.zip (s.links.zip (linkSlices s.types q qd s.dofs)),
+      LinkOK x.1 x.2.1 x.2.2 ∧ (x.1 < 0 → x.2.2.typ = .free))
+    (hq : linkSlices s.types q' qd' s.dofs = (linkSlices s.types q qd s.dofs).map (xformIn g))
+    (hact : ActAgree s q qd q' qd') :
+    ∃ q'' qd'', steps inv (gSys g s) (Spring.init (gSys g s) q' qd') acts
+        = gState g s (steps inv s (Spring.init s q qd) acts) q'' qd''
+      ∧ ActAgree s (steps inv s (Spring.init s q qd) acts).q
+          (steps inv s (Spring.init s q qd) acts).qd q'' qd'' := by
+  rw [spring_init_equivariant g hg s q qd q' qd' hfr hlinks hpw hok hq]
+  exact C05L.spring_steps_equivariant g hg s inv hfr hlinks hinv acts _ q' qd'
+    (LenOK.init s q qd hlinks hfr.hlen) hact
+
+/-! ### non-vacuity: a free root carrying a hinged, actuated child; `g` = rotation by
+`2·atan(4/3)` about `z` (unit quaternion `(3/5, 0, 0, 4/5)`) followed by a translation -/
+
+/-- a link with identity `transform`/`joint`, unit mass and inertia -/
+noncomputable def exLink : LinkP ℝ := ⟨Tf.id, Tf.id, ⟨Tf.id, M3.one, 1⟩, 1, 100, 1, 100, 1⟩
+noncomputable def exDof (ang vel : V3 ℝ) : DofP ℝ := ⟨⟨ang, vel⟩, 0, 0, 0, none, none, 1⟩
+/-- free root (link 0) with a child (link 1) on a hinge about `z`, driven by one motor -/
+noncomputable def exSys : Sys ℝ :=
+  { types := [.free, .one], parents := [-1, 0], links := [exLink, exLink],
+    dofs := [exDof ⟨0, 0, 0⟩ ⟨1, 0, 0⟩, exDof ⟨0, 0, 0⟩ ⟨0, 1, 0⟩, exDof ⟨0, 0, 0⟩ ⟨0, 0, 1⟩,
+             exDof ⟨1, 0, 0⟩ ⟨0, 0, 0⟩, exDof ⟨0, 1, 0⟩ ⟨0, 0, 0⟩, exDof ⟨0, 0, 1⟩ ⟨0, 0, 0⟩,
+             exDof ⟨0, 0, 1⟩ ⟨0, 0, 0⟩],
+    hasLimit := false, acts := [⟨7, 6, none, none, none, none, 1, 1, 0, 0⟩],
+    gravity := ⟨0, 0, -9.81⟩, dt := 0.01, velDamping := 0, angDamping := 0, baumgarteErp := 0.1,
+    springMassScale := 0, springInertiaScale := 0, jointScaleAng := 0.2, jointScalePos := 0.5,
+    collideScale := 1 }
+noncomputable def exG : Tf ℝ := ⟨⟨1, -2, 3⟩, ⟨3/5, 0, 0, 4/5⟩⟩
+noncomputable def exState : Spring.State ℝ :=
+  { q := [0, 0, 1, 1, 0, 0, 0, 0.3], qd := [0, 0, 0, 0, 0, 0, 0.1],
+    x := [⟨⟨0, 0, 1⟩, Q4.one⟩, ⟨⟨1, 0, 1⟩, Q4.one⟩], xd := [⟨⟨0, 0, 0⟩, ⟨0, 0, 0⟩⟩, ⟨⟨0, 0, 0.1⟩, ⟨0, 0, 0⟩⟩],
+    x_i := [⟨⟨0, 0, 1⟩, Q4.one⟩, ⟨⟨1, 0, 1⟩, Q4.one⟩],
+    xd_i := [⟨⟨0, 0, 0⟩, ⟨0, 0, 0⟩⟩, ⟨⟨0, 0, 0.1⟩, ⟨0, 0, 0⟩⟩],
+    j := [⟨⟨0, 0, 1⟩, Q4.one⟩, ⟨⟨0, 0, 0⟩, Q4.one⟩], jd := [⟨⟨0, 0, 0⟩, ⟨0, 0, 0⟩⟩, ⟨⟨0, 0, 0.1⟩, ⟨0, 0, 0⟩⟩],
+    a_p := [Tf.id, ⟨⟨0, 0, 1⟩, Q4.one⟩], a_c := [⟨⟨0, 0, 1⟩, Q4.one⟩, ⟨⟨1, 0, 1⟩, Q4.one⟩],
+    i_inv := [M3.one, M3.one], mass := [1, 1] }
+
+theorem exSys_freeRooted : FreeRooted exSys where
+  hlen := rfl
+  hpar := by
+    intro i hi
+    have hi' : i < 2 := hi
+    match i, hi' with
+    | 0, _ => simp [parentOf, exSys]
+    | 1, _ => simp [parentOf, exSys]
+  hroot := by
+    intro i hi hp
+    have hi' : i < 2 := hi
+    match i, hi' with
+    | 0, _ => simp [exSys]
+    | 1, _ => simp [parentOf, exSys] at hp
+
+/-- the hypotheses of `spring_step_equivariant` hold for this system, state and transform (the
+transformed state's `q'`, `qd'` have the root coordinates changed and the hinge angle/rate kept) -/
+example : exG.rot.IsUnit ∧ FreeRooted exSys ∧ exSys.links.length = exSys.numLinks
+    ∧ Spring.State.WF exSys exState = true
+    ∧ ActAgree exSys exState.q exState.qd [1, -2, 4, 3/5, 0, 0, 4/5, 0.3] [0, 0, 0, 0, 0, 0, 0.1] := by
+  refine ⟨?_, exSys_freeRooted, rfl, ?_, ?_⟩
+  · simp only [Q4.IsUnit, Q4.normSq, exG]; norm_num
+  · simp [Spring.State.WF, exSys, exState, Sys.numLinks, Sys.nq, Sys.nv, LinkType.qWidth, LinkType.qdWidth]
+  · intro a ha
+    simp only [exSys, List.mem_singleton] at ha
+    subst ha
+    simp [nthS, exState]
+
+/-- `InvLocal` is satisfiable with an `inv` that really reads the hinge row -/
+example : InvLocal exSys (fun j jd =>
+    ([0, 0, 0, 1, 0, 0, 0, (nth j 1).pos.x], [0, 0, 0, 0, 0, 0, (nth jd 1).ang.z])) := by
+  intro j j' jd jd' h a ha
+  simp only [exSys, List.mem_singleton] at ha
+  subst ha
+  obtain ⟨h1, h2⟩ := h 1 (by show 1 < 2; omega) (by simp [parentOf, exSys])
+  simp [nthS, h1, h2]
+
+/-- a single free body -/
+noncomputable def exSys1 : Sys ℝ :=
+  { exSys with types := [.free], parents := [-1], links := [exLink], dofs := exSys.dofs.take 6, acts := [] }
+
+theorem exSys1_freeRooted : FreeRooted exSys1 where
+  hlen := rfl
+  hpar := by
+    intro i hi
+    have hi' : i < 1 := hi
+    match i, hi' with
+    | 0, _ => simp [parentOf, exSys1]
+  hroot := by
+    intro i hi hp
+    have hi' : i < 1 := hi
+    match i, hi' with
+    | 0, _ => simp [exSys1]
+
+/-- the hypotheses of `spring_init_equivariant` / `spring_trajectory_equivariant` hold for a single
+free body, the transform `exG` and the transformed coordinates written out as numbers -/
+example : FreeRooted exSys1 ∧ exSys1.links.length = exSys1.numLinks ∧ ParentsWF exSys1.parents
+    ∧ InvLocal exSys1 (fun _ _ => ([], []))
+    ∧ (∀ x ∈ exSys1.parents.zip (exSys1.links.zip
+          (linkSlices exSys1.types [0, 0, 1, 1, 0, 0, 0] [1, 0, 0, 0, 0, 0.5] exSys1.dofs)),
+        LinkOK x.1 x.2.1 x.2.2 ∧ (x.1 < 0 → x.2.2.typ = .free))
+    ∧ linkSlices exSys1.types [1, -2, 4, 3/5, 0, 0, 4/5] [-7/25, 24/25, 0, 0, 0, 0.5] exSys1.dofs
+        = (linkSlices exSys1.types [0, 0, 1, 1, 0, 0, 0] [1, 0, 0, 0, 0, 0.5] exSys1.dofs).map (xformIn exG)
+    ∧ ActAgree exSys1 [0, 0, 1, 1, 0, 0, 0] [1, 0, 0, 0, 0, 0.5]
+        [1, -2, 4, 3/5, 0, 0, 4/5] [-7/25, 24/25, 0, 0, 0, 0.5] := by
+  refine ⟨exSys1_freeRooted, rfl, ?_, ?_, ?_, ?_, ?_⟩
+  · intro i hi
+    have hi' : i < 1 := hi
+    match i, hi' with
+    | 0, _ => simp [exSys1]
+  · intro j j' jd jd' _ a ha; simp [exSys1] at ha
+  · intro x hx
+    simp only [exSys1, exSys, linkSlices, List.zip_cons_cons, List.zip_nil_right, List.mem_singleton,
+      LinkType.qWidth, LinkType.qdWidth] at hx
+    subst hx
+    refine ⟨⟨?_, rfl, ?_, ?_⟩, fun _ => rfl⟩
+    · simp [exLink, Tf.id, Q4.IsUnit, Q4.normSq, Q4.one]
+    · intro _
+      refine ⟨by norm_num, rfl, rfl, by simp, 0, 0, 1, 1, 0, 0, 0, by simp, ?_⟩
+      simp [Q4.IsUnit, Q4.normSq]
+    · intro h; simp at h
+  · simp only [exSys1, exSys, linkSlices, LinkType.qWidth, LinkType.qdWidth, List.map_cons, List.map_nil,
+      xformIn, exG]
+    simp only [List.take, Tf.doTf, rotate, quatMul, V3.dot, V3.cross, Q4.vec, V3.add_def]
+    norm_num
+  · intro a ha; simp [exSys1] at ha
+end spring
 
 end Brax.C05
